@@ -148,7 +148,8 @@ Record state := mkS { k : core; pending : list item; pushed : list top }.
 Definition sf : float := float_of_Z c_scaleFactor.
 Definition scale (s : float) : float := fmul sf s.
 Definition tx (x : float) : float := scale x.
-Definition ty (y : float) : float := fsub (scale (float_of_Z c_evyHeight)) (scale y).
+Definition ty_origin : float := scale (float_of_Z c_evyHeight).   (* rt.scale(evyHeight) *)
+Definition ty (y : float) : float := fsub ty_origin (scale y).
 
 (* ---------- commands = the calls of evaluator.GraphicsPlatform ---------- *)
 Record fontprops := mkFP {
@@ -227,18 +228,19 @@ Definition core_step (fx : fixes) (kk : core) (c : cmd) : core :=
 
 (* ---------- Gridn's loop:  for i := 0.0; i <= 1000; i += unit ----------
    one (hLine, vLine) pair per round; [true] marks the rounds with lineCnt%5 == 0 *)
+Definition grid_h : float := float_of_Z (c_evyHeight * c_scaleFactor).   (* height := float64(evyHeight * scaleFactor) *)
+Definition grid_w : float := float_of_Z (c_evyWidth * c_scaleFactor).
+Definition grid_every : Z := Z.of_nat grid_thick_every.
 Definition grid_pair (i : float) (thick : bool) (r : list (geom * bool)) : list (geom * bool) :=
-  let h := float_of_Z (c_evyHeight * c_scaleFactor) in
-  let w := float_of_Z (c_evyWidth * c_scaleFactor) in
-  (GLine i 0%float i h, thick) :: (GLine 0%float i w i, thick) :: r.
+  (GLine i 0%float i grid_h, thick) :: (GLine 0%float i grid_w i, thick) :: r.
 
-Fixpoint grid_loop (fuel : nat) (i unit : float) (cnt : nat) : option (list (geom * bool)) :=
+Fixpoint grid_loop (fuel : nat) (i unit : float) (cnt : Z) : option (list (geom * bool)) :=
   match fuel with
   | O => None   (* OutOfFuel: the loop did not end within the budget *)
   | S f =>
       if PrimFloat.leb i grid_bound then
-        match grid_loop f (fadd i unit) unit (S cnt) with
-        | Some r => Some (grid_pair i (Nat.eqb (Nat.modulo cnt grid_thick_every) 0) r)
+        match grid_loop f (fadd i unit) unit (Z.succ cnt) with
+        | Some r => Some (grid_pair i (Z.eqb (Z.modulo cnt grid_every) 0) r)
         | None => None
         end
       else Some []
@@ -255,14 +257,14 @@ Fixpoint grid_rounds (left : nat) (n : Z) (unit : float) : list (geom * bool) :=
   | S left' =>
       let i := fmul (float_of_Z n) unit in
       if PrimFloat.leb i grid_bound then
-        grid_pair i (Z.eqb (Z.modulo n (Z.of_nat grid_thick_every)) 0) (grid_rounds left' (Z.succ n) unit)
+        grid_pair i (Z.eqb (Z.modulo n grid_every) 0) (grid_rounds left' (Z.succ n) unit)
       else []
   end.
 Definition grid_count (unit : float) : list (geom * bool) :=
   grid_rounds (Z.to_nat (grid_max_rounds + 1)) 0 unit.
 
 Definition grid_lines (fx : fixes) (fuel : nat) (u : float) : option (list (geom * bool)) :=
-  if fx_gridn_bound fx then Some (grid_count (tx u)) else grid_loop fuel 0%float (tx u) O.
+  if fx_gridn_bound fx then Some (grid_count (tx u)) else grid_loop fuel 0%float (tx u) 0%Z.
 (* `hLine.StrokeWidth = &thickWdith` *)
 Definition grid_line_attr (thick : bool) : eattr :=
   if thick then mkA [] [] (Some grid_thick_width) [] [] else a0.
@@ -724,6 +726,18 @@ Definition svg_case (x : sx) : sx :=
                    Lst (map enc_fshape sall);
                    sx_bool (rejected cur l); sx_bool (rejected all l)]
           | _, _, _, _, _ => Lst [Sym (s_ "hang"); sx_bool (rejected cur l); sx_bool (rejected all l)]
+          end
+      | None => Sym (s_ "decode-error")
+      end
+  | Lst [Int fuel; Lst cs; Sym which] =>
+      (* brief answer for very large documents: only the render tree of one variant *)
+      match dec_cmds cs with
+      | Some l =>
+          let fuel := Z.to_nat fuel in
+          let fx := if str_eqb which (s_ "all") then all else cur in
+          match run fx fuel pre_init (program (effective fx l)) with
+          | Some st => Lst [Sym (s_ "brief"); enc_doc (render fx st); sx_bool (rejected cur l); sx_bool (rejected all l)]
+          | None => Lst [Sym (s_ "hang"); sx_bool (rejected cur l); sx_bool (rejected all l)]
           end
       | None => Sym (s_ "decode-error")
       end
